@@ -100,7 +100,7 @@ func runMutantsFor(id string, o checkOpts) *mutantSummary {
 	}
 	var mu sync.Mutex
 	var wg sync.WaitGroup
-	sem := make(chan struct{}, 3)
+	sem := make(chan struct{}, 2)
 	for _, m := range todo {
 		wg.Add(1)
 		sem <- struct{}{}
@@ -116,7 +116,6 @@ func runMutantsFor(id string, o checkOpts) *mutantSummary {
 			}
 			o2 := o
 			o2.overlay = ov
-			o2.timeout = 10 * time.Second
 			res, err := runCheck(id, o2)
 			mu.Lock()
 			defer mu.Unlock()
